@@ -157,6 +157,16 @@ def _matmul(a, b):
     b1 = b.ndim == 1
     Ac, As = _split(a)
     Bc, Bs = _split(b)
+    fa = _is_native(a) and a.dtype.kind in "fc"
+    fb = _is_native(b) and b.dtype.kind in "fc"
+    if fa or fb:
+        # a genuine float operand (e.g. np.array([()]) is float64): keep NumPy's dtype semantics so that a later
+        # bitwise operation fails exactly as it does natively
+        if As or Bs:
+            raise TypeError("floating point operand combined with symbolic integer entries")
+        A_ = a if _is_native(a) else Ac.astype(a._nom if isinstance(a, SymArray) else real_np.int64)
+        B_ = b if _is_native(b) else Bc.astype(b._nom if isinstance(b, SymArray) else real_np.int64)
+        return real_np.matmul(A_, B_)
     if a1:
         Ac = Ac.reshape(1, -1)
         As = [((0, i[0]), e) for i, e in As]
